@@ -215,6 +215,65 @@ def case_tabulator(rec, nb, kramers, ibands):
     rec.explore(body, ass)
 
 
+def case_sea_groups(rec, nb, kramers):
+    """Data_K.get_bands_in_range_groups_ik(sea=True): the groups handed to the Fermi-sea calculators (incl. the block of bands below the window) are disjoint,
+    ordered, cover every band at or below the window, and no multiplet is split between two of them"""
+    U, T, DK, TAB, KB = _mods()
+    from wannierberri.data_K.data_K_R import Data_K_R
+    shadow([T, DK])
+    E = symvec("E", (1, nb))
+    thr, emin, emax = SymC.var("thr"), SymC.var("emin"), SymC.var("emax")
+    ass = sorted_assumptions(E[0]) + [thr.zreal() > 0, emin.zreal() <= emax.zreal()]
+
+    def body(rec):
+        rec.witness = lambda env: dict(fn="sea_groups", E=[env.val(e) for e in E[0]], thresh=env.val(thr), kramers=kramers, emin=env.val(emin), emax=env.val(emax))
+        dk = object.__new__(Data_K_R)
+        dk.__dict__.update(dict(num_wann=nb))
+        dk.__dict__['E_K'] = E.copy()
+        dk.__dict__['nk'] = 1
+        groups = sorted((int(a), int(b)) for a, b in dk.get_bands_in_range_groups_ik(0, emin, emax, degen_thresh=thr, degen_Kramers=kramers, sea=True).keys())
+        ok = all(0 <= a < b <= nb for a, b in groups) and all(g[1] <= h[0] for g, h in zip(groups, groups[1:]))
+        rec.concrete("sea groups are disjoint and ordered", ok, detail=str(groups), key="get_bands_in_range_groups(sea=True): groups overlap")
+        if not ok:
+            return
+        member = {}
+        for gi, (a, b) in enumerate(groups):
+            for i in range(a, b):
+                member[i] = gi
+        facts = []
+        for i in range(nb - 1):
+            if kramers and i % 2 == 0:
+                close = z3.BoolVal(True)           # Kramers partners always stay together
+            elif kramers:
+                close = z3.BoolVal(False)
+            else:
+                c = E[0, i + 1] - E[0, i] <= thr
+                close = c.t if isinstance(c, SymB) else z3.BoolVal(bool(c))
+            both = i in member and (i + 1) in member
+            # members of one multiplet: both in the same group, or (only for the all-below block, which is summed as a whole anyway) both inside some group
+            if both and member[i] != member[i + 1]:
+                # allowed only if the lower one belongs to the block of bands entirely below the window
+                a, b = groups[member[i]]
+                below = E[0, b - 1] < emin
+                below = below.t if isinstance(below, SymB) else z3.BoolVal(bool(below))
+                facts.append(z3.Implies(close, below))
+            elif (i in member) != ((i + 1) in member):
+                # one of two close bands is in a group and the other in none: only possible when the upper one lies above the window
+                above = E[0, i + 1] > emax
+                above = above.t if isinstance(above, SymB) else z3.BoolVal(bool(above))
+                facts.append(z3.Implies(close, z3.Or(above, z3.BoolVal(i + 1 in member))))
+        # every band at or below the upper window edge is in some group
+        for i in range(nb):
+            le = E[0, i] <= emax
+            le = le.t if isinstance(le, SymB) else z3.BoolVal(bool(le))
+            if i not in member:
+                # a band not in any group must lie above the window, or belong to a group that is above (its group's lowest member above emax)
+                facts.append(z3.Not(z3.And(le, (E[0, i] >= emin).t if isinstance(E[0, i] >= emin, SymB) else z3.BoolVal(bool(E[0, i] >= emin)))))
+        if facts:
+            rec.fact("no multiplet is split between sea groups; bands inside the window belong to a group", z3.And(*facts), key="get_bands_in_range_groups(sea=True): a multiplet is split / a band in the window is in no group")
+    rec.explore(body, ass)
+
+
 def cases(tier, seed):
     out = []
     nmax = 5 if tier == "quick" else 7
@@ -237,6 +296,7 @@ def cases(tier, seed):
         for kr in (False, True):
             if kr and nb % 2:
                 continue
+            out.append(Case(f"sea groups nb={nb} kramers={kr}", case_sea_groups, dict(nb=nb, kramers=kr)))
             out.append(Case(f"in_range nb={nb} kramers={kr}", case_in_range, dict(nb=nb, kramers=kr, select=None)))
             out.append(Case(f"tabulator nb={nb} kramers={kr}", case_tabulator, dict(nb=nb, kramers=kr, ibands=None)))
         out.append(Case(f"in_range nb={nb} select=[0]", case_in_range, dict(nb=nb, kramers=False, select=[0])))
@@ -286,6 +346,24 @@ def replay(rec):
         want = [[a, b] for a, b in zip(borders, borders[1:]) if E[b - 1] >= w["emin"] and E[a] <= w["emax"] and (sel is None or set(range(a, b)) & set(sel))]
         got = [[int(a), int(b)] for a, b in T.get_bands_in_range(w["emin"], w["emax"], E, degen_thresh=thr, degen_Kramers=kr, select_bands=sel)]
         return got != want, f"E={E.tolist()} thresh={thr} range=[{w['emin']},{w['emax']}]: {got} expected {want}"
+    if w["fn"] == "sea_groups":
+        from wannierberri.data_K.data_K_R import Data_K_R
+        dk = object.__new__(Data_K_R)
+        dk.__dict__.update(dict(num_wann=nb))
+        dk.__dict__['E_K'] = E[None, :]
+        dk.__dict__['nk'] = 1
+        groups = sorted((int(a), int(b)) for a, b in dk.get_bands_in_range_groups_ik(0, w["emin"], w["emax"], degen_thresh=thr, degen_Kramers=w["kramers"], sea=True).keys())
+        overlap = not all(g[1] <= h[0] for g, h in zip(groups, groups[1:]))
+        member = {i: gi for gi, (a, b) in enumerate(groups) for i in range(a, b)}
+        split = False
+        for i in range(nb - 1):
+            close = (i % 2 == 0) if w["kramers"] else (E[i + 1] - E[i] <= thr)
+            if close and i in member and (i + 1) in member and member[i] != member[i + 1] and not E[groups[member[i]][1] - 1] < w["emin"]:
+                split = True
+            if close and (i in member) and (i + 1) not in member and not E[i + 1] > w["emax"]:
+                split = True
+        missing = any(i not in member and w["emin"] <= E[i] <= w["emax"] for i in range(nb))
+        return bool(overlap or split or missing), f"E={E.tolist()} thresh={thr} window=[{w['emin']},{w['emax']}] sea groups {groups}"
     if w["fn"] == "Tabulator":
         import wannierberri.calculators.tabulate as TAB
         from wannierberri.data_K.data_K_R import Data_K_R
